@@ -5,7 +5,8 @@ WORD = "abcdefghijklmnopqrstuvwxyzABCDEFGHIJKLMNOPQRSTUVWXYZ0123456789_"
 
 _WS = [" ", "  ", "\t", "\n", "\r\n", "\n\n", " \n ", "\x0c", "\x0b", "\u00a0", "\u2003", "\n\t\t", "\r", " \r ", "\r\r", "\x1c", "\x85", "\u2028"]
 _COMMENT_WORDS = ["x", "return", '"', "'", "//", "*", "/", "{", "}", "weighted 1", "def", "é", "if a == 1", ",", '"B" weighted 1',
-                  "**", "* /", "http://x", "日本", "else", "(", ")", "-", "salt: 's'", " ", "  ", "\r", "\x0c", "a\rb = 1"]
+                  "**", "* /", "http://x", "日本", "else", "(", ")", "-", "salt: 's'", " ", "  ", "\r", "\x0c", "a\rb = 1",
+                  "x.pyab", "fmt: off", "\\", "#", "noqa", "@", ";"]
 
 
 class Chooser:
@@ -148,6 +149,9 @@ def make_variant(data, toks, style=None):
             out.append(sep)
             tags.update(t)
     trail, t = ("", []) if style == "min" else trivia(ch)
+    if trail.endswith("\n") and "//" in trail[:-1].split("\n")[-1] and ch.flag():
+        trail = trail[:-1]  # the last // comment is ended by the end of the text, not by a line break
+        tags.add("line-comment-ends-at-EOF")
     if trail.strip():
         tags.add("trivia-after-last-token")
     out.append(trail)
